@@ -63,6 +63,8 @@ class Engine(Interp, ExprMixin, StmtMixin, CallMixin, MethodMixin):
             fr.env = env
             live = dict(env)
             entry = {k: self.snapshot(v) for k, v in env.items()}
+            for k, v in entry.items():
+                fr.extra['old_' + k] = v          # entry values, for loop invariants
             if info['inputs'] is None:
                 info['inputs'] = entry
             fpre = Frame(None, dict(entry), mod, None, c)
